@@ -120,6 +120,28 @@ Proof.
   now rewrite fields_loop_para.
 Qed.
 
+(** Dsc/Changes: when the raw split returns a payload whose first line is not a
+    comment line, the loop of _gpg_multivalued.__init__ stops at once *)
+Lemma gpgmv_init_payload ws ls g rest l0 ls0 :
+  consume false ws true gpg_init ls = (g, rest) -> g_lines g = l0 :: ls0 ->
+  ignorable_line l0 = false ->
+  gpgmv_init ws ls = (fst (deb822_init ws (l0 :: ls0)), rest).
+Proof.
+  intros E El Hc. unfold gpgmv_init. rewrite gpgmv_split_S, E, El.
+  cbn [forallb]. rewrite Hc, andb_false_r. reflexivity.
+Qed.
+
+Lemma safe_line_not_ignorable l : safe_line l = true -> ignorable_line l = false.
+Proof.
+  intros H. destruct (safe_line_inv l H) as (_ & Hc & Hb & _). unfold ignorable_line. now rewrite Hc, Hb.
+Qed.
+
+Lemma safe_head_not_comment l ls : forallb safe_line (l :: ls) = true -> ignorable_line l = false.
+Proof.
+  cbn [forallb]. intros H. apply andb_true_iff in H. destruct H as [H _].
+  now apply safe_line_not_ignorable.
+Qed.
+
 (** the three ways a block can sit in front of [tail] *)
 Definition after_block (b : block) (tail : list str) : list str :=
   match b_armor b with
@@ -172,10 +194,12 @@ Proof.
                  (lead ++ armor_lines a (para_lines (b_para b)) ++ b_seps b ++ tail)
                = (g', b_seps b ++ tail) /\ g_lines g' = para_lines (b_para b)).
     { intros skip. now apply consume_armor. }
-    destruct c; cbn [init_of]; unfold deb822_init, gpgmv_init.
-    + destruct (Hall true) as (g' & E & El). rewrite E. now apply lines_init.
-    + destruct (Hall false) as (g' & E & El). rewrite E. rewrite El.
-      f_equal. eapply deb822_init_payload; [exact Hv|exact Hne|reflexivity].
+    destruct c; cbn [init_of].
+    + unfold deb822_init. destruct (Hall true) as (g' & E & El). rewrite E. now apply lines_init.
+    + destruct (Hall false) as (g' & E & El).
+      destruct (para_lines (b_para b)) as [|l0 ls0] eqn:Ep; [congruence|].
+      rewrite (gpgmv_init_payload ws _ g' _ l0 ls0 E El (safe_head_not_comment _ _ Hs)).
+      f_equal. rewrite <- Ep. eapply deb822_init_payload; [exact Hv|exact Hne|reflexivity].
   - (* unsigned *)
     destruct (para_lines (b_para b)) as [|l ls] eqn:E; [congruence|].
     assert (Hall : forall skip,
@@ -187,10 +211,10 @@ Proof.
         now apply consume_plain_sep.
       - rewrite Hnil, (Htail Hl). cbn [tl app]. rewrite !app_nil_r. now apply consume_plain_end. }
     split.
-    + destruct c; cbn [init_of]; unfold deb822_init, gpgmv_init; rewrite Hall.
-      * cbn [g_lines]. rewrite <- E. now rewrite fields_loop_para.
-      * cbn [g_lines]. f_equal. rewrite <- E.
-        eapply deb822_init_payload; [exact Hv|exact Hne|reflexivity].
+    + destruct c; cbn [init_of].
+      * unfold deb822_init. rewrite Hall. cbn [g_lines]. rewrite <- E. now rewrite fields_loop_para.
+      * rewrite (gpgmv_init_payload ws _ _ _ l ls (Hall false) eq_refl (safe_head_not_comment _ _ Hs)).
+        f_equal. rewrite <- E. eapply deb822_init_payload; [exact Hv|exact Hne|reflexivity].
     + destruct Hshape as [Hseps|[Hl Hnil]].
       * destruct (valid_seps_inv _ _ Hseps) as (s & more & -> & Hs1 & Hmore). now exists more.
       * rewrite Hnil. now exists [].
@@ -215,8 +239,9 @@ Lemma iter_lines_blank c ws lead : forallb ws_line lead = true -> iter_lines c w
 Proof.
   intros H. unfold iter_lines. cbn [iter_loop].
   assert (E : init_of c ws lead = (Ok [], [])).
-  { destruct c; cbn [init_of]; unfold deb822_init, gpgmv_init; rewrite consume_blank_only by exact H;
-      reflexivity. }
+  { destruct c; cbn [init_of].
+    - unfold deb822_init. now rewrite consume_blank_only by exact H.
+    - unfold gpgmv_init. rewrite gpgmv_split_S, consume_blank_only by exact H. reflexivity. }
   now rewrite E.
 Qed.
 
